@@ -113,10 +113,12 @@ pub fn plain(cs: usize, r: usize, c: usize, seed: u64) -> f64 {
     }
 }
 
+/// Row schemes: 0 = kk+1 rows (reversed sweep, one repeat), 1 = kk rows (every category of the widest
+/// column exactly once; n = 1 when every column has a single category), 2 = 2kk rows (pairs).
 pub fn n_rows(rs: usize, kk: usize) -> usize {
     match rs {
-        0 => kk,
-        1 => kk + 1,
+        0 => kk + 1,
+        1 => kk,
         _ => 2 * kk,
     }
 }
@@ -125,8 +127,8 @@ pub fn n_rows(rs: usize, kk: usize) -> usize {
 /// 0..k for every row scheme because every scheme sweeps at least `kk >= k` consecutive integers).
 pub fn label(rs: usize, r: usize, i: usize, k: usize, n: usize) -> usize {
     match rs {
-        0 => (r + i) % k,
-        1 => (n - 1 - r + i) % k,
+        0 => (n - 1 - r + i) % k,
+        1 => (r + i) % k,
         _ => (r / 2 + i) % k,
     }
 }
